@@ -123,8 +123,74 @@ def _worker(job):
     return s
 
 
+def _token_worker(job):
+    """Enumerated: every declared enumeration token of every class, in a minimal document (plain-mode scalars
+    written through the lexical layer), must arrive intact at its place."""
+    H.setup_path()
+    from ofxtools import Types
+
+    names, stride = job
+    s = H.Stats()
+    U = M.universe()
+    for name in names:
+        cls = U[name]
+        for attr, kind, t in M.decl(cls):
+            tt = t.converter if kind == "listelem" else t
+            if kind not in ("elem", "listelem") or not isinstance(tt, Types.OneOf):
+                continue
+            toks = [x for x in tt.valid if isinstance(x, str)]
+            for i, tok in enumerate(toks):
+                if i % stride and i != len(toks) - 1:
+                    continue
+                try:
+                    d = M.minimal(cls, with_attr=attr) if kind == "elem" else M.minimal(cls, with_member=["tok", tok])
+                    from pbt.checks.c13 import _custom_patch
+
+                    _custom_patch(d, attr)
+                except Exception as e:
+                    raise H.HarnessError(f"minimal({name}, {attr}): {e!r}")
+                if kind == "elem":
+                    d["kw"][attr] = ["tok", tok]
+                _to_lex(d)
+                case = {"doc": d, "sgml": bool(i % 2), "style": i}
+                s.case(case, nontrivial=True, labels=["token-sweep"])
+                for k, dd in check_case(case):
+                    s.fail("token-sweep/" + k, case, f"{name}.{attr}={tok!r}: {dd}")
+        s.label("classes swept for tokens")
+    return s
+
+
+def _to_lex(desc):
+    """minimal() yields plain-mode scalars; give them the lexical-description shape check_case expects."""
+    def conv(v):
+        k = v[0]
+        if k == "str":
+            return ["str", v[1], 0]
+        if k == "dec":
+            return ["dec", v[1], ".", False, None] if len(v) == 2 else v
+        if k == "dt":
+            y, mo, d, h, mi, s_, us, off, name = v[1:]
+            return ["dtx", {"y": y, "mo": mo, "d": d, "h": h, "mi": mi, "s": s_, "ms": us // 1000, "notation": "full", "off": off, "sign": "signed", "mins": "auto", "name": name}]
+        if k == "time":
+            h, mi, s_, us, off = v[1:]
+            return ["timex", {"y": 0, "mo": 0, "d": 0, "h": h, "mi": mi, "s": s_, "ms": us // 1000, "notation": "tfull", "off": off, "sign": "signed", "mins": "auto", "name": None}]
+        return v
+
+    for a, v in list(desc["kw"].items()):
+        if M.is_scalar(v):
+            desc["kw"][a] = conv(v)
+        else:
+            _to_lex(v)
+    for i, m in enumerate(desc["list"]):
+        if M.is_scalar(m):
+            desc["list"][i] = conv(m)
+        else:
+            _to_lex(m)
+
+
 def run(ctx):
     names = sorted(M.universe())
+    ctx.pmap(_token_worker, [(names[i::32], ctx.scale(4, 1)) for i in range(32)])
     n = ctx.scale(15, 200)
     shards = [names[i::48] for i in range(48)]
     ctx.pmap(_worker, [(sh, n, ctx.sub_seed("cls")) for sh in shards])
